@@ -7,6 +7,7 @@ AS_H = 'src/tbb/arena_slot.h'
 TD_CPP = 'src/tbb/task_dispatcher.cpp'
 PF_H = 'include/oneapi/tbb/parallel_for.h'
 MB_H = 'src/tbb/mailbox.h'
+CQB_H = 'include/oneapi/tbb/detail/_concurrent_queue_base.h'
 SRW_H = 'include/oneapi/tbb/spin_rw_mutex.h'
 QRW_CPP = 'src/tbb/queuing_rw_mutex.cpp'
 PP_CPP = 'src/tbb/parallel_pipeline.cpp'
@@ -334,6 +335,57 @@ MUTANTS = [
         ('include/oneapi/tbb/queuing_mutex.h', "                if (m_mutex->q_tail.compare_exchange_strong(expected, nullptr)) {", "                if (m_mutex->q_tail.load() == expected && (m_mutex->q_tail.store(nullptr), true)) {")]),
     dict(name='c08-qrw-internal-lock-leak', prop='C08', clause='D1', edits=[
         (QRW_CPP, "                next->my_going.store(1U, std::memory_order_release);\n                unblock_or_wait_on_internal_lock(s, get_flag(tmp));", "                next->my_going.store(1U, std::memory_order_release);\n                (void)tmp;")]),
+    # ---------------------------------------------------------------- C09
+    dict(name='c09-trypop-no-empty-test', prop='C09', clause='D1', edits=[
+        (CQ_H, "            if (static_cast<std::ptrdiff_t>(queue.tail_counter.load(std::memory_order_relaxed) - ticket) <= 0) { // queue is empty\n                // Queue is empty\n                return { false, ticket };\n            }",
+         "")]),
+    dict(name='c09-push-ticket-load-store', prop='C09', clause='D1', edits=[
+        (CQ_H, "        ticket_type k = my_queue_representation->tail_counter++;", "        ticket_type k = my_queue_representation->tail_counter.load(); my_queue_representation->tail_counter.store(k + 1);")]),
+    dict(name='c09-guard-after-construct', prop='C09', clause='D2', edits=[
+        (CQB_H, """        auto value_guard = make_raii_guard([&] {
+            ++base.n_invalid_entries;
+            d1::call_itt_notify(d1::releasing, &tail_counter);
+            tail_counter.fetch_add(queue_rep_type::n_queue);
+        });
+
+        page_allocator_traits::construct(page_allocator, &(*p)[index], std::forward<Args>(args)...);""",
+         """        page_allocator_traits::construct(page_allocator, &(*p)[index], std::forward<Args>(args)...);
+        auto value_guard = make_raii_guard([&] {
+            ++base.n_invalid_entries;
+            d1::call_itt_notify(d1::releasing, &tail_counter);
+            tail_counter.fetch_add(queue_rep_type::n_queue);
+        });
+""")]),
+    dict(name='c09-push-no-advance', prop='C09', clause='D2', edits=[
+        (CQB_H, "        value_guard.dismiss();\n        tail_counter.fetch_add(queue_rep_type::n_queue);", "        value_guard.dismiss();")]),
+    dict(name='c09-finalizer-after-move', prop='C09', clause='D3', edits=[
+        (CQB_H, """            micro_queue_pop_finalizer<self_type, value_type, page_allocator_type> finalizer(*this, page_allocator,
+                k + queue_rep_type::n_queue, index == items_per_page - 1 ? p : nullptr );
+            if (p->mask.load(std::memory_order_relaxed) & (std::uintptr_t(1) << index)) {
+                success = true;
+                assign_and_destroy_item(dst, *p, index);
+            } else {
+                --base.n_invalid_entries;
+            }""", """            if (p->mask.load(std::memory_order_relaxed) & (std::uintptr_t(1) << index)) {
+                success = true;
+                assign_and_destroy_item(dst, *p, index);
+            } else {
+                --base.n_invalid_entries;
+            }
+            micro_queue_pop_finalizer<self_type, value_type, page_allocator_type> finalizer(*this, page_allocator,
+                k + queue_rep_type::n_queue, index == items_per_page - 1 ? p : nullptr );""")]),
+    dict(name='c09-finalizer-relaxed', prop='C09', clause='D3', edits=[
+        (CQB_H, "        my_queue.head_counter.store(my_ticket_type, std::memory_order_release);", "        my_queue.head_counter.store(my_ticket_type, std::memory_order_relaxed);")]),
+    dict(name='c09-pop-ignores-mask', prop='C09', clause='D3', edits=[
+        (CQB_H, "            if (p->mask.load(std::memory_order_relaxed) & (std::uintptr_t(1) << index)) {\n                success = true;\n                assign_and_destroy_item(dst, *p, index);\n            } else {\n                --base.n_invalid_entries;\n            }",
+         "            {\n                success = true;\n                assign_and_destroy_item(dst, *p, index);\n            }")]),
+    dict(name='c09-link-page-unlocked', prop='C09', clause='D4', edits=[
+        (CQB_H, "        if (p) {\n            spin_mutex::scoped_lock lock( page_mutex );\n            padded_page* q = tail_page.load(std::memory_order_relaxed);", "        if (p) {\n            padded_page* q = tail_page.load(std::memory_order_relaxed);")]),
+    dict(name='c09-phi-4', prop='C09', clause='D6', edits=[
+        (CQB_H, "    static constexpr size_type phi = 3;", "    static constexpr size_type phi = 4;")]),
+    dict(name='c09-bounded-push-abort-leaks-ticket', prop='C09', clause='D2', edits=[
+        (CQ_H, "            }).on_exception( [&] {\n                my_queue_representation->choose(ticket).abort_push(ticket, *my_queue_representation, my_allocator);\n            });",
+         "            }).on_exception( [&] {\n            });")]),
 ]
 
 BENIGN = [
@@ -365,4 +417,6 @@ BENIGN = [
          "        task_info wakee;\n        {\n            spin_mutex::scoped_lock lock;\n            lock.acquire( array_mutex );\n            // Wake the next task")]),
     dict(name='c08-b-stronger', prop='C08', edits=[
         ('include/oneapi/tbb/spin_mutex.h', "        m_flag.store(false, std::memory_order_release);", "        m_flag.exchange(false);")]),
+    dict(name='c09-b-fetch_add-ticket', prop='C09', edits=[
+        (CQ_H, "        ticket_type k = my_queue_representation->tail_counter++;", "        ticket_type k = my_queue_representation->tail_counter.fetch_add(1);")]),
 ]
